@@ -68,8 +68,9 @@ def committed(rng):
 def auth(scripts, fields):
     functions = env.mods()[0]
     try:
-        return functions.run_auth_scripts([bytes(s) for s in scripts],
-                                          dict(fields))
+        ss = [bytes(s) for s in scripts]
+        return functions.run_auth_scripts(ss, dict(fields),
+                                          **env.roomy_limits(*ss))
     except BaseException as e:
         return e
 
